@@ -26,16 +26,16 @@ RUNS = [
     dict(name="event-k3-set", prim="event", cfg="3 1", flavours=["local", "sync"],
          quick=dict(explore=200000), thorough=dict(explore=2000000)),
     dict(name="event-k4", prim="event", cfg="4 0", flavours=["local"],
-         quick=dict(explore=0), thorough=dict(explore=3000000), corpus=False),
+         quick=dict(explore=30000), thorough=dict(explore=3000000), corpus=False),
     # mutex: cfg = slots, fair
     dict(name="mutex-k3-unfair", prim="mutex", cfg="3 0", flavours=["local", "sync"],
          quick=dict(explore=500000, random=(300, 80)), thorough=dict(explore=500000, random=(5000, 300)), random_cfg="10 0"),
     dict(name="mutex-k3-fair", prim="mutex", cfg="3 1", flavours=["local", "sync"],
          quick=dict(explore=500000, random=(300, 80)), thorough=dict(explore=500000, random=(5000, 300)), random_cfg="10 1"),
     dict(name="mutex-k4-unfair", prim="mutex", cfg="4 0", flavours=["local"],
-         quick=dict(explore=0), thorough=dict(explore=3000000), corpus=False),
+         quick=dict(explore=30000), thorough=dict(explore=3000000), corpus=False),
     dict(name="mutex-k4-fair", prim="mutex", cfg="4 1", flavours=["local"],
-         quick=dict(explore=0), thorough=dict(explore=3000000), corpus=False),
+         quick=dict(explore=30000), thorough=dict(explore=3000000), corpus=False),
     # semaphore: cfg = slots, fair, initial permits, max request, max releasers, permit budget, fixed(=1: the model the theorems are about)
     dict(name="sem-k2-unfair", prim="semaphore", cfg="2 0 0 3 1 3 1", flavours=["local", "sync", "shared"],
          quick=dict(explore=400000, random=(300, 80)), thorough=dict(explore=400000, random=(5000, 300)), random_cfg="8 0 2 4 4 12 1"),
@@ -52,9 +52,9 @@ RUNS = [
     dict(name="sem-max-fair", prim="semaphore", cfg="2 1 18446744073709551612 3 2 18446744073709551615 1", flavours=["local", "sync", "shared"],
          quick=dict(explore=40000), thorough=dict(explore=150000), corpus=False),
     dict(name="sem-k3-unfair", prim="semaphore", cfg="3 0 0 2 1 2 1", flavours=["local", "shared"],
-         quick=dict(explore=0), thorough=dict(explore=3000000), corpus=False),
+         quick=dict(explore=30000), thorough=dict(explore=3000000), corpus=False),
     dict(name="sem-k3-fair", prim="semaphore", cfg="3 1 0 2 1 2 1", flavours=["local", "shared"],
-         quick=dict(explore=0), thorough=dict(explore=3000000), corpus=False),
+         quick=dict(explore=30000), thorough=dict(explore=3000000), corpus=False),
 ]
 
 RUNS += [
@@ -67,6 +67,8 @@ RUNS += [
          quick=dict(explore=1000000, random=(300, 80)), thorough=dict(explore=1000000, random=(5000, 300)), random_cfg="6 6 2 0 0"),
     dict(name="mpmc-c1-22", prim="mpmc", cfg="2 2 1 0 0", flavours=["local"],
          quick=dict(explore=0), thorough=dict(explore=4000000), corpus=False),
+    dict(name="mpmc-c1-31", prim="mpmc", cfg="3 1 1 0 0", flavours=["local"],
+         quick=dict(explore=30000), thorough=dict(explore=3000000), corpus=False),
     dict(name="mpmc-c2-22", prim="mpmc", cfg="2 2 2 0 0", flavours=["local"],
          quick=dict(explore=30000, random=(400, 40)), thorough=dict(explore=6000000), corpus=False),
     dict(name="mpmc-shared-c0", prim="mpmc", cfg="1 1 0 1 2", flavours=["shared", "shared-growing"],
@@ -93,7 +95,7 @@ RUNS += [
     dict(name="state-shared", prim="state", cfg="2 1 2 2", flavours=["shared"],
          quick=dict(explore=1000000, random=(200, 60)), thorough=dict(explore=1000000, random=(3000, 150)), random_cfg="6 1 3 8"),
     dict(name="state-k3", prim="state", cfg="3 0 0 3", flavours=["local"],
-         quick=dict(explore=0), thorough=dict(explore=4000000), corpus=False),
+         quick=dict(explore=30000), thorough=dict(explore=4000000), corpus=False),
     # timer: cfg = slots, distinct deadlines, max time
     dict(name="timer-k3", prim="timer", cfg="3 2 2", flavours=["local", "sync"],
          quick=dict(explore=1000000, random=(200, 80)), thorough=dict(explore=1000000, random=(3000, 300)), random_cfg="12 6 8"),
@@ -136,7 +138,7 @@ RUNS += [
     dict(name="mpmc-sstream-c1", prim="mpmc", cfg="1 1 1 1 2 1", flavours=["shared"], quick=dict(explore=1000000), thorough=dict(explore=1000000)),
     dict(name="mpmc-sstream-c0", prim="mpmc", cfg="2 1 0 1 2 1", flavours=["shared"], quick=dict(explore=1000000), thorough=dict(explore=1000000)),
 ]
-MPMC_RUNS = ["mpmc-c0", "mpmc-c1", "mpmc-c2", "mpmc-c1-22", "mpmc-c2-22", "mpmc-shared-c0", "mpmc-shared-c1", "mpmc-shared-c1-h3"]
+MPMC_RUNS = ["mpmc-c0", "mpmc-c1", "mpmc-c2", "mpmc-c1-22", "mpmc-c1-31", "mpmc-c2-22", "mpmc-shared-c0", "mpmc-shared-c1", "mpmc-shared-c1-h3"]
 ONESHOT_RUNS = ["oneshot-local", "bcast-local", "oneshot-shared", "bcast-shared"]
 MUTEX_RUNS = ["mutex-k3-unfair", "mutex-k3-fair", "mutex-k4-unfair", "mutex-k4-fair"]
 SEM_RUNS = ["sem-k2-unfair", "sem-k2-fair", "sem-k2-unfair-p1", "sem-k2-fair-p1", "sem-k3-unfair", "sem-k3-fair", "sem-max-unfair", "sem-max-fair"]
